@@ -239,8 +239,9 @@ def selftest(prop, engine, tier, seed0, n, pool):
     return {"seeds": n, "twice_in_other_process": n, "other_hashseed_fresh_interpreter": len(dc)}
 
 
-def _batch(prop, engine, tier, pool, seeds_iter, fault_free, agg, deadline, max_runs, chunk=25):
+def _batch(prop, engine, tier, pool, seeds_iter, fault_free, agg, deadline, max_runs):
     "Keep 2*WORKERS chunks in flight until max_runs or the deadline."
+    chunk = getattr(engine, "CHUNK", 25)
     pending = set()
     submitted = 0
     done_runs = 0
